@@ -60,6 +60,8 @@ type Policy struct {
 
 // Sim is one simulated run.
 type Sim struct {
+	stallDen int
+	stallMax time.Duration
 	T       *Tape
 	Pol     Policy
 	start   time.Time
@@ -271,6 +273,23 @@ func (s *Sim) shouldYield(site string) bool {
 	return false
 }
 
+// EnableStalls lets goroutines lose the CPU for up to max of simulated time
+// at one in den of the scheduling points where they yield (a slow or
+// descheduled thread). Off unless a scenario asks for it: oracles that hold
+// the library to exact instants do not.
+func (s *Sim) EnableStalls(den int, max time.Duration) { s.stallDen, s.stallMax = den, max }
+
+func (s *Sim) stall(site string) time.Duration {
+	if s.stallDen <= 0 || s.Free {
+		return 0
+	}
+	if s.T.Intn("stall", s.stallDen) != 0 {
+		return 0
+	}
+	s.Stats["fault:goroutine-descheduled"]++
+	return time.Duration(1+s.T.Intn("stall", int(s.stallMax/(10*time.Microsecond)))) * 10 * time.Microsecond
+}
+
 func (s *Sim) notify() {
 	select {
 	case s.wake <- struct{}{}:
@@ -480,7 +499,7 @@ func RunOne(t *testing.T, tape *Tape, sc ScenarioFunc, o RunOpts) (res RunResult
 			s.Pol = drawPolicy(tape, o.Params)
 			s.Free = o.Free
 			if !s.Free {
-				zsimrt.Start(zsimrt.Hooks{ShouldYield: s.shouldYield, Notify: s.notify, Intn: s.intn})
+				zsimrt.Start(zsimrt.Hooks{ShouldYield: s.shouldYield, Stall: s.stall, Notify: s.notify, Intn: s.intn})
 				// which ready case a select takes is part of the schedule
 				zsimrt.SetSelectSeed(uint64(tape.Intn("sched", 1<<30))<<20 | 1)
 				defer zsimrt.SetSelectSeed(0)
